@@ -198,14 +198,14 @@ def fn(name):
                   label='mp::internal::TextReader::ReadTillEndOfLine', nmatches=1)
     if name.startswith('ReadIntWithoutSign_'):
         Int = name.split('_', 1)[1]
-        return Fn(NLR, r'bool ReadIntWithoutSign\(Int& value\)', proto, contract=contract, subst=MU, defines={'value': '(*value_p)'},
+        return Fn(NLR, r'bool ReadIntWithoutSign\(Int\s*&?\s*value\)', proto, contract=contract, subst=MU, refs={'value': 'value_p'},
                   loops={0: '__CPROVER_assigns(ptr_, c, result) __CPROVER_loop_invariant(RD_LE && c == *ptr_ && c >= \'0\' && c <= \'9\' && '
                             '__CPROVER_POINTER_OFFSET(ptr_) >= __CPROVER_POINTER_OFFSET(__CPROVER_loop_entry(ptr_))) ' + DEC_PTR},
                   label='mp::internal::TextReader::ReadIntWithoutSign<Int>', inst='Int=%s' % INT_TYPES[Int][0], nmatches=1)
     if name == 'DoReadOptionalInt_int':
-        return Fn(NLR, r'bool DoReadOptionalInt\(Int &value\)', proto, contract=contract,
+        return Fn(NLR, r'bool DoReadOptionalInt\(Int\s*&?\s*value\)', proto, contract=contract,
                   subst=MU + [(r'ReadIntWithoutSign<UInt>\(result\)', 'ReadIntWithoutSign_unsigned(&result)', 1)],
-                  defines={'value': '(*value_p)'}, label='mp::internal::TextReader::DoReadOptionalInt<Int>', inst='Int=int', nmatches=1)
+                  refs={'value': 'value_p'}, label='mp::internal::TextReader::DoReadOptionalInt<Int>', inst='Int=int', nmatches=1)
     if name in ('ReadUInt_int', 'ReadUInt_size_t'):
         Int = name.split('_', 1)[1]
         return Fn(NLR, r'Int ReadUInt\(\) \{', proto, contract=contract,
@@ -215,15 +215,15 @@ def fn(name):
         return Fn(NLR, r'int ReadUInt\(\) \{ return ReadUInt<int>\(\); \}', proto, contract=contract,
                   label='mp::internal::TextReader::ReadUInt', nmatches=1)
     if name == 'ReadUInt_acc':
-        return Fn(NLR, r'int ReadUInt\(int &accumulator\)', proto, contract=contract, defines={'accumulator': '(*accumulator_p)'},
+        return Fn(NLR, r'int ReadUInt\(int\s*&?\s*accumulator\)', proto, contract=contract, refs={'accumulator': 'accumulator_p'},
                   label='mp::internal::TextReader::ReadUInt(int&)', nmatches=1)
     if name == 'ReadOptionalUInt':
-        return Fn(NLR, r'bool ReadOptionalUInt\(int &value\)', proto, contract=contract,
-                  subst=[(r'ReadIntWithoutSign\(value\)', 'ReadIntWithoutSign_int(&value)', 1)], defines={'value': '(*value_p)'},
+        return Fn(NLR, r'bool ReadOptionalUInt\(int\s*&?\s*value\)', proto, contract=contract,
+                  subst=[(r'ReadIntWithoutSign\(value\)', 'ReadIntWithoutSign_int(&value)', 1)], refs={'value': 'value_p'},
                   label='mp::internal::TextReader::ReadOptionalUInt', nmatches=1)
     if name == 'ReadOptionalDouble':
-        return Fn(NLC, r'bool mp::internal::TextReader<Locale>::ReadOptionalDouble\(double &value\)', proto, contract=contract,
-                  subst=[(r'std::strtod\(ptr_, &end\)', 'strtod(ptr_, &end)', 1)], defines={'value': '(*value_p)'},
+        return Fn(NLC, r'bool mp::internal::TextReader<Locale>::ReadOptionalDouble\(double\s*&?\s*value\)', proto, contract=contract,
+                  subst=[(r'std::strtod\(ptr_, &end\)', 'strtod(ptr_, &end)', 1)], refs={'value': 'value_p'},
                   label='mp::internal::TextReader::ReadOptionalDouble', nmatches=1)
     if name == 'ReadDouble':
         return Fn(NLR, r'double ReadDouble\(\) \{\s*SkipSpace', proto, contract=contract,
@@ -314,7 +314,7 @@ def h_readheader():
     parts.append(ADV)
     for d in deps:
         parts.append(decl(d))
-    parts.append(Fn(NLC, r'void mp::internal::TextReader<Locale>::ReadHeader\(NLHeader &header\)', 'void ReadHeader(NLHeader *header_p)',
+    parts.append(Fn(NLC, r'void mp::internal::TextReader<Locale>::ReadHeader\(NLHeader\s*&?\s*header\)', 'void ReadHeader(NLHeader *header_p)',
                     contract='__CPROVER_requires(RD_LE && line_ >= 0 && line_ < 1000 && __CPROVER_w_ok(header_p, sizeof(NLHeader)) && header_p->num_ampl_options == 0 '
                              '&& header_p->num_compl_conds == 0 && header_p->num_nl_compl_conds == 0) '
                              '__CPROVER_ensures(RD_LE && header_p->num_vars >= 0 && header_p->num_algebraic_cons >= 0 && header_p->num_objs >= 0 && '
@@ -327,7 +327,7 @@ def h_readheader():
                            (r'ReadUInt\(max_vars\)', 'ReadUInt_acc(&max_vars)', 5),
                            (r'ReadOptionalUInt\((header\.\w+|arith_kind)\)', r'ReadOptionalUInt(&\1)', -1),
                            (r'ReadOptionalDouble\((tmp|header\.ampl_vbtol)\)', r'ReadOptionalDouble(&\1)', 2)],
-                    defines={'header': '(*header_p)'},
+                    refs={'header': 'header_p'},
                     loops={0: '__CPROVER_assigns(i, ptr_, token_, header_p->ampl_options) __CPROVER_loop_invariant(0 <= i && i <= header_p->num_ampl_options && '
                               'header_p->num_ampl_options <= MAX_AMPL_OPTIONS && RD_LE) __CPROVER_decreases(header_p->num_ampl_options - i)'},
                     label='mp::internal::TextReader::ReadHeader', nmatches=1))
@@ -560,7 +560,46 @@ void harness(void) { vp_one = 1; vp_mkreader(); g_strings = 0; line_ = nondet_in
                    note='the constructive stub used by callers satisfies the contract proved for the real function')
 
 
+_drv = [None]
+
+
+def replay(lead, inputs, obs):
+    """Contract counterexamples of the leaf readers start from an arbitrary cursor state, not from a file: the native
+    replay runs the real mp::ReadNLString under ASan/UBSan on the recorded hostile inputs in replay/inputs/*.nl."""
+    import glob
+    import os
+    import subprocess
+    from vp.run import BUILD, VERIF
+    repo = os.environ.get('VP_REPO', '/repo')
+    if _drv[0] is None:
+        out = os.path.join(BUILD, 'replay', 'c02_replay')
+        os.makedirs(os.path.dirname(out), exist_ok=True)
+        cmd = ['g++', '-std=c++17', '-g', '-O0', '-w', '-fsanitize=address,undefined,float-cast-overflow', '-fno-sanitize-recover=all',
+               '-I', repo + '/include', os.path.join(VERIF, 'replay', 'c02_replay.cc')] + \
+              [os.path.join(repo, 'src', x) for x in ('nl-reader.cc', 'format.cc', 'os.cc', 'posix.cc', 'expr-info.cc')] + ['-o', out]
+        p = subprocess.run(cmd, capture_output=True, text=True)
+        if p.returncode != 0:
+            return False, 'replay driver build failed: ' + p.stderr[-1500:], ' '.join(cmd)
+        _drv[0] = out
+    tried = []
+    for f in sorted(glob.glob(os.path.join(VERIF, 'replay', 'inputs', '*.nl'))):
+        for flags in ('0', '1'):
+            args = [_drv[0], f, flags]
+            p = subprocess.run(args, capture_output=True, text=True, timeout=120)
+            tried.append(os.path.basename(f))
+            if p.returncode != 0:
+                return True, (p.stdout + p.stderr)[-2500:], ' '.join(args)
+    return False, 'not reproduced by the recorded inputs %s' % sorted(set(tried)), ''
+
+
 def harnesses(tier, seed):
+    hs = _harnesses(tier, seed)
+    for h in hs:
+        h.replay = replay
+    return hs
+
+
+def _harnesses(tier, seed):
     hs = [h_text(n) for n in DEPS]
     hs += [h_stub(n) for n in STUBS]
     hs.append(h_readheader())
